@@ -8,7 +8,7 @@ vars == <<l, bad>>
 Init == l = 1 /\ bad = <<>>
 Next == /\ l <= Len(Rec)
         /\ LET e == Rec[l]  c == IF D!RunOK(e) THEN 0 ELSE IF e.st = "ran" /\ (e.stderr_panicked \/ e.signal # <<>> \/ e.status # <<0>>) THEN 5 ELSE 1
-           IN bad' = IF c = 0 THEN bad ELSE Append(bad, <<l, c>>)
+           IN bad' = IF c = 0 THEN bad ELSE (IF Len(bad) >= 5000 THEN bad ELSE Append(bad, <<l, c>>))
         /\ l' = l + 1
 Spec == Init /\ [][Next]_vars
 Done == l = Len(Rec) + 1
